@@ -283,12 +283,16 @@ def fixed_worker(job):
 
 FIXED = [("lit", b"abcdabce", "str"), ("lit", b"abab", "str"), ("lit", b"aab", "str"), ("lit", b"\r\n", "str"), ("lit", b"aA", "casei")]
 
+# /(a|b)([^a]a)/: at -O3 the restart transition on {'a', End} was merged with the start state's Else transition (fixed 0b9df9f)
+FIXED_O3 = [("re", ("seq", (("alt", (("lit", 0x61), ("lit", 0x62))), ("seq", (("set", (("c", 0x61),), True), ("lit", 0x61))))), False)]
+
 
 def main(ctx):
     quick = ctx.tier == "quick"
     known = tuple(ctx.open_keys)
     ml = 6 if quick else 8
-    ctx.pmap(fixed_worker, [(p, t, ["-O1", "-feof-support"], known, ml) for p in FIXED for t in ("T1", "T2")])
+    ctx.pmap(fixed_worker, [(p, t, ["-O1", "-feof-support"], known, ml) for p in FIXED for t in ("T1", "T2")]
+             + [(p, "T1", ["-O3"], known, ml) for p in FIXED_O3])
     n = 40 if quick else 600
     stop_at = time.time() + (70 if quick else 1500)
     ctx.pmap(worker, [(ctx.seed * 100003 + i, n, known, stop_at, ml) for i in range(common.NPROC)])
